@@ -9,7 +9,8 @@
    PartialEntities (HashMap uid -> PartialEntity)    pstore = list (U * D)
    PartialEntity::try_from(Entity::with_uid(id))     empty_entity
    EntityLoader::load_entities                       loader = list U -> list (U * option D)   (pure)
-   add_entities / add_entity_trusted (Duplicate)     add_all  (None = EntitiesError::Duplicate)
+   `if entities.contains_entity(&id) { continue }`   add_all  (an id that is already loaded is skipped; /repo 6dde98e)
+   add_entities / add_entity_trusted                 add_all  (cannot fail any more: Duplicate is unreachable)
    for _ in 0..max_iters { .. break if no Partial }  loop
    tpe::Response::new decision table                 decide
    is_authorized_batched                             batched
@@ -21,7 +22,7 @@ Import ListNotations.
 From Cedar Require Import Base Sexp Syntax Authz.
 
 Inductive rclass := RTrue | RFalse | RError | RPartial.
-Inductive boutcome := BOk (d : decision) | BInsufficient | BErrDuplicate.
+Inductive boutcome := BOk (d : decision) | BInsufficient.
 
 Definition eff_is_forbid (e : effect) : bool := match e with Forbid => true | Permit => false end.
 Definition eff_is_permit (e : effect) : bool := match e with Permit => true | Forbid => false end.
@@ -60,13 +61,15 @@ Section Batched.
   Definition to_load (st : pstore) (rs : list rpol) : list U :=
     dedup (filter (fun u => negb (loaded st u)) (flat_map (fun er => lits (snd er)) rs)).
 
-  (* for (id, e_option) in loaded_entities { add_entities / add_entity_trusted }: Duplicate error
-     when the id is already in the store; a missing entity is added as the empty entity *)
-  Fixpoint add_all (st : pstore) (ans : list (U * option D)) : option pstore :=
+  (* for (id, e_option) in loaded_entities { if contains_entity(id) { continue } add_entities /
+     add_entity_trusted }: an id that is already in the store is skipped (since /repo 6dde98e; before
+     that fix the call failed with EntitiesError::Duplicate); a missing entity is added as the
+     empty entity *)
+  Fixpoint add_all (st : pstore) (ans : list (U * option D)) : pstore :=
     match ans with
-    | [] => Some st
+    | [] => st
     | (u, e) :: tl =>
-        if loaded st u then None
+        if loaded st u then add_all st tl
         else add_all ((u, match e with Some d => d | None => empty_entity u end) :: st) tl
     end.
 
@@ -75,18 +78,15 @@ Section Batched.
 
   (* the for-loop; also returns the requested id sets, oldest first (observable through the loader) *)
   Fixpoint loop (l : loader) (fuel : nat) (st : pstore) (rs : list rpol) (calls : list (list U))
-    : option (pstore * list rpol * list (list U)) :=
+    : pstore * list rpol * list (list U) :=
     match fuel with
-    | O => Some (st, rs, calls)
+    | O => (st, rs, calls)
     | S f =>
         let ids := to_load st rs in
-        match add_all st (l ids) with
-        | None => None
-        | Some st' =>
-            let rs' := map (fun er => (fst er, reinterp st' (snd er))) rs in
-            if no_partial rs' then Some (st', rs', calls ++ [ids])
-            else loop l f st' rs' (calls ++ [ids])
-        end
+        let st' := add_all st (l ids) in
+        let rs' := map (fun er => (fst er, reinterp st' (snd er))) rs in
+        if no_partial rs' then (st', rs', calls ++ [ids])
+        else loop l f st' rs' (calls ++ [ids])
     end.
 
   Definition has (eff_p : effect -> bool) (c : rclass) (rs : list rpol) : bool :=
@@ -109,9 +109,7 @@ Section Batched.
 
   Definition batched_full (l : loader) (n : nat) : boutcome * list (list U) :=
     match loop l n [] init [] with
-    | None => (BErrDuplicate, [])
-    | Some (_, rs, calls) =>
-        (match decide rs with Some d => BOk d | None => BInsufficient end, calls)
+    | (_, rs, calls) => (match decide rs with Some d => BOk d | None => BInsufficient end, calls)
     end.
   Definition batched (l : loader) (n : nat) : boutcome := fst (batched_full l n).
 
@@ -122,33 +120,47 @@ Section Batched.
     | (v, d) :: tl => if U_eqb u v then Some d else lookup tl u
     end.
   Definition loader_of (es : list (U * D)) : loader := fun ids => map (fun u => (u, lookup es u)) ids.
+  (* a stateless loader that returns the requested ids AND the whole store, every time *)
+  Definition loader_all (es : list (U * D)) : loader :=
+    fun ids => loader_of es ids ++ map (fun ud => (fst ud, Some (snd ud))) es.
 End Batched.
 
 (* ------------------------------------------------------------------ concrete instance 1:
-   pointer chains.  An entity has a flag and an optional `next` reference; a residual is
-   "follow `next` k times from u, then read the flag" (the shape principal.a.b.c.flag).  Each hop
-   needs the previous entity to be loaded: one more iteration per hop. *)
-Definition cdata := (bool * option Z)%type.
-Inductive cres := CDone (c : rclass) | CChain (u : Z) (k : nat).
-Definition c_classify (r : cres) : rclass := match r with CDone c => c | CChain _ _ => RPartial end.
+   guarded pointer chains.  An entity has an optional `flag` (absent only for the empty entity that
+   stands for a missing one) and an optional `next` reference; the residual CChain u k is
+       u has next && u.next has next && ... && u.next^k.flag          (k hops)
+   as the partial evaluator sees it: an unloaded entity on the way keeps it Partial (asking for that
+   entity), a missing `next` makes it false, a missing `flag` at the end is an evaluation error.
+   Each hop needs the previous entity to be loaded: one more iteration per hop. *)
+Definition cdata := (option bool * option Z)%type.
+Inductive dclass := DTrue | DFalse | DError.
+Definition d_rc (c : dclass) : rclass := match c with DTrue => RTrue | DFalse => RFalse | DError => RError end.
+Inductive cres := CDone (c : dclass) | CChain (u : Z) (k : nat).
+Definition c_classify (r : cres) : rclass := match r with CDone c => d_rc c | CChain _ _ => RPartial end.
 Definition c_lits (r : cres) : list Z := match r with CDone _ => [] | CChain u _ => [u] end.
 Fixpoint c_follow (st : list (Z * cdata)) (u : Z) (k : nat) : cres :=
   match lookup Z Z.eqb cdata st u with
   | None => CChain u k
   | Some (flag, next) =>
       match k with
-      | O => CDone (if flag then RTrue else RFalse)
+      | O => match flag with
+             | Some true => CDone DTrue
+             | Some false => CDone DFalse
+             | None => CDone DError          (* u.flag on the empty entity: evaluation error *)
+             end
       | S k' => match next with
-                | None => CDone RError        (* missing attribute: evaluation error *)
+                | None => CDone DFalse       (* `u has next` is false *)
                 | Some v => c_follow st v k'
                 end
       end
   end.
 Definition c_reinterp (st : list (Z * cdata)) (r : cres) : cres :=
   match r with CDone c => CDone c | CChain u k => c_follow st u k end.
-Definition c_empty (_ : Z) : cdata := (false, None).
+Definition c_empty (_ : Z) : cdata := (None, None).
+Definition c_batched_full (rs0 : list (effect * cres)) (l : loader Z cdata) (n : nat) : boutcome * list (list Z) :=
+  batched_full Z Z.eqb cdata c_empty cres c_classify c_lits c_reinterp rs0 l n.
 Definition c_batched (rs0 : list (effect * cres)) (es : list (Z * cdata)) (n : nat) : boutcome :=
-  batched Z Z.eqb cdata c_empty cres c_classify c_lits c_reinterp rs0 (loader_of Z Z.eqb cdata es) n.
+  fst (c_batched_full rs0 (loader_of Z Z.eqb cdata es) n).
 
 (* ------------------------------------------------------------------ concrete instance 2:
    fact tables (correspondence driver).  The evaluator is a table from the set of loaded ids to
@@ -219,7 +231,6 @@ Definition e_boutcome (o : boutcome) : sexp :=
   | BOk Allow => SL [SY "ok"; SY "allow"]
   | BOk Deny => SL [SY "ok"; SY "deny"]
   | BInsufficient => SY "insufficient"
-  | BErrDuplicate => SY "err_duplicate"
   end.
 
 (* (batched_trace budget (effect ...) ((loaded-set ((class (lits)) ...)) ...) ((requested-set ((id exists) ...)) ...)) *)
@@ -237,24 +248,46 @@ Definition run_batched_trace (args : list sexp) : sexp :=
   | _ => bad_input
   end.
 
-(* (batched_chain budget ((effect (chain u k) | (done class)) ...) ((u flag next|none) ...)) *)
+(* (batched_chain budget exact|all ((effect (chain u k) | (done class)) ...) ((u flag|none next|none) ...))
+   -> (outcome ((requested ids) ...)) *)
 Definition d_cres (s : sexp) : option cres :=
   match s with
-  | SL [SY y; a] => if sym_eqb y "done" then option_map CDone (d_rclass a) else None
   | SL [SY y; SI u; SI k] => if sym_eqb y "chain" then Some (CChain u (Z.to_nat k)) else None
+  | SL [SY y; a] => if sym_eqb y "done" then
+                      match d_rclass a with
+                      | Some RTrue => Some (CDone DTrue) | Some RFalse => Some (CDone DFalse)
+                      | Some RError => Some (CDone DError) | _ => None
+                      end
+                    else None
+  | _ => None
+  end.
+Definition d_optbool (s : sexp) : option (option bool) :=
+  match s with
+  | SY y => if sym_eqb y "none" then Some None else option_map Some (d_bool s)
+  | _ => None
+  end.
+Definition d_optint (s : sexp) : option (option Z) :=
+  match s with
+  | SI z => Some (Some z)
+  | SY y => if sym_eqb y "none" then Some None else None
   | _ => None
   end.
 Definition d_cent (s : sexp) : option (Z * cdata) :=
   match s with
-  | SL [SI u; f; SI v] => match d_bool f with Some f => Some (u, (f, Some v)) | None => None end
-  | SL [SI u; f; SY _] => match d_bool f with Some f => Some (u, (f, None)) | None => None end
+  | SL [SI u; f; nx] => match d_optbool f, d_optint nx with
+                        | Some f, Some nx => Some (u, (f, nx))
+                        | _, _ => None
+                        end
   | _ => None
   end.
 Definition run_batched_chain (args : list sexp) : sexp :=
   match args with
-  | [b; rs; es] =>
+  | [b; SY variant; rs; es] =>
       match d_nat b, d_list (d_pair d_beffect d_cres) rs, d_list d_cent es with
-      | Some b, Some rs, Some es => e_boutcome (c_batched rs es b)
+      | Some b, Some rs, Some es =>
+          let l := if sym_eqb variant "all" then loader_all Z Z.eqb cdata es else loader_of Z Z.eqb cdata es in
+          let r := c_batched_full rs l b in
+          SL [e_boutcome (fst r); e_list (e_list SI) (snd r)]
       | _, _, _ => bad_input
       end
   | _ => bad_input
